@@ -32,6 +32,8 @@ def run(ck):
     ck.assumptions += ['scores are finite and not NaN (the property excludes NaN / empty validation)',
                        'time_limit_s is None']
     ck.check_theorems()
+    from harness import selectarith
+    selectarith.check_translation(ck)
     alphabet = [0.0, 1.0, 2.0, 3.0] if ck.tier == 'quick' else [0.5, 1.0, 1.1, 2.0, 3.0]
     budgets = range(0, 5) if ck.tier == 'quick' else range(0, 6)
     mults = [1.0, 1.1, 1.25, 1.5]
